@@ -296,7 +296,8 @@ def main() -> int:
                     vd.violation(f"docstrings_on_attributes:code_changed:{artefact_kind(rel)}", f"{label}: {rel} differs beyond docstrings", dict(w, file=rel))
                     break
         elif option == "generate_all_tags":
-            multi = [(m, p, op) for p, m, op, _ in docs.iter_ops(d) if len(op.get("tags") or []) > 1]
+            generated = {(e["method"], e["path"]) for e in (bres.get("manifest") or {}).get("endpoints") or []}
+            multi = [(m, p, op) for p, m, op, _ in docs.iter_ops(j["doc"]) if len(set(op.get("tags") or [])) > 1 and (m, p) in generated]
             differ(bt, vt, "files_outside_api", allow=lambda rel: rel.startswith("api/"))
             for rel, text in bt.items():
                 if rel.startswith("api/") and vt.get(rel) != text:
